@@ -87,3 +87,15 @@ pub fn current_pause_name<VM: VMBinding>(mmtk: &MMTK<VM>) -> &'static str {
         },
     }
 }
+
+/// (space name, treadmill sets `[from_space, to_space, collect_nursery, alloc_nursery]`) of every
+/// large object space of the plan.
+pub fn los_treadmill_sets<VM: VMBinding>(mmtk: &MMTK<VM>) -> Vec<(&'static str, [Vec<usize>; 4])> {
+    let mut out = vec![];
+    mmtk.get_plan().for_each_space(&mut |space: &dyn Space<VM>| {
+        if let Some(los) = space.downcast_ref::<crate::policy::largeobjectspace::LargeObjectSpace<VM>>() {
+            out.push((space.get_name(), los.verif_treadmill_sets()));
+        }
+    });
+    out
+}
